@@ -64,6 +64,10 @@ def _start(kind, ndim, variant):
     return df.Field(mesh, nvdim=nvdim, value=arr, valid=C.coded_mask(n, 1), unit="A/m")
 
 
+class _ARR(tuple):
+    """a reference point that is handed to the library as a numpy array (hashable / printable like a tuple here)"""
+
+
 def _scale_len(ndim, variant):
     return 1.0 if variant == 0 else 1e-8
 
@@ -84,6 +88,9 @@ def _events(kind, ndim, variant, tier, dims):
     for s in factors:
         for r in refs:
             ev.append(("scale", (s, r)))
+    # the reference point given as a numpy array (also the all-zero one, which is falsy for ndim == 1)
+    ev.append(("scale", (2, _ARR(far))))
+    ev.append(("scale", (0.5, _ARR(origin))))
     if ndim >= 2:
         pairs = [(dims[i], dims[(i + 1) % ndim]) for i in range(ndim if ndim > 2 else 1)]
         if th:
@@ -100,6 +107,23 @@ def _events(kind, ndim, variant, tier, dims):
             forms.append(e + ("copy",))
             forms.append(e + ("in",))
     return forms
+
+
+def _first_only(kind, ndim):
+    """very small but non-zero factors (a unit conversion pm -> m is 1e-12): NOT a degenerate step from the start state.
+    Offered as first event only, and the search is not continued behind them: a second step on a region whose edge is
+    1e-12 of its coordinates can be absorbed by rounding, and refusing that would be legitimate."""
+    o = tuple([0.0] * ndim)  # about the origin, as a unit conversion does: all coordinates shrink, precision is kept
+    # (uniform factors only: a per-axis factor of 1e-13 creates aspect ratios of 1e13, beyond what the whole-cell tests
+    # of a mesh with subregions can resolve with tolerance_factor 1e-12 - refusing that is not judged)
+    ev = [("scale", (1e-12, o)), ("scale", (-1e-12, o)), ("scale", (tuple([1e-12] * ndim), o))]
+    out = []
+    for e in ev:
+        if kind == "field":
+            out.append(e + ("mesh-in",))
+        else:
+            out += [e + ("copy",), e + ("in",)]
+    return out
 
 
 def _malformed(kind, ndim, dims, L=1.0):
@@ -134,7 +158,8 @@ def _call(obj, kind, ev, form):
     if op == "translate":
         r = target.translate(args[0], inplace=inplace)
     elif op == "scale":
-        r = target.scale(args[0], reference_point=args[1], inplace=inplace)
+        rp = np.array(args[1], dtype=float) if isinstance(args[1], _ARR) else args[1]
+        r = target.scale(args[0], reference_point=rp, inplace=inplace)
     else:
         r = target.rotate90(args[0], args[1], k=args[2], reference_point=args[3], inplace=inplace)
     if target is not obj:
@@ -467,14 +492,15 @@ def unit_histories(ctx):
     # the first event is a top-level choice (sharding): None = only the start state and its
     # malformed calls; otherwise the transition start --first--> s1 is checked here and the BFS
     # continues from the one-event history.
-    first = ctx.choose("first", [None] + events)
+    first_only = _first_only(kind, ndim)
+    first = ctx.choose("first", [None] + events + first_only)
     if first is None:
         enabled(build(()), ())
         ctx.state("bfs", _canon(build(())))
         return
     ctx.step()
     s1 = on_transition((), first)
-    if s1 is None:
+    if s1 is None or first in first_only:
         return
     ns, nt, capped = engine.bfs(ctx, [(first,)], enabled, build, _canon, on_transition, depth,
                                 max_states=(40000 if th else 6000))
